@@ -372,3 +372,33 @@ MANIFEST_TEXT["C17"] = {
     "technique": "property-based testing (rapid), invariant over the call history (argument and earlier-result snapshots incl. spare capacity)",
 }
 NOT_APPLICABLE[:] = [e for e in NOT_APPLICABLE if e["property_id"] not in CHECKS]
+
+CHECKS["C12"] = {
+    "test": "TestC12",
+    "race": True,
+    "quick": {"shards": 8, "checks": 150, "timeout": 1500},
+    "thorough": {"shards": 16, "checks": 1500, "timeout": 7200},
+    "rule": "built with -race (GORACE halt_on_error). A rapid-generated writer script (block / undo / Verify(remember) / re-read of its own serialization; for a partial forest also "
+            "Prune and Ingest) on a full or partial MapPollard with generated TotalRows, and a query set holding every reader method at least once (GetRoots, GetStump, Prove x2, "
+            "Verify(remember=false), GetLeafPosition x2, GetLeafHashPositions, GetHash x2 (1-6 positions), GetMissingPositions, GetNumLeaves, GetTreeRows, Write (parsed), "
+            "VerifyPartialProof(remember=false)) with arguments resolved in a drawn between-steps state. Expected answers: a sequential replica run of the same script answers "
+            "every query in every between-steps state. Two schedule generators: OWNED (2 of 3 cases): the verifPoint hook suspends the writer at a drawn (step, site, occurrence) "
+            "inside its critical section; all queries are started during the pause, the writer is released after a 3 ms grace period; a query that RETURNS during the pause must "
+            "carry the pre-step answer, every query the pre- or post-step answer, none may panic, afterwards the forest answers as the sequential run. STRESS (1 of 3): 1-6 reader "
+            "goroutines loop over the queries (GOMAXPROCS drawn from 1..16) while the writer runs the script, waiting a drawn number of reader operations between steps; each "
+            "result must equal the answer of a state in the window given by the step counter read before and after the call. Any data-race report, panic or RWMutex deadlock "
+            "(goroutine dump) is a violation. Non-trivial: owned schedule whose site was reached with queries started during the pause, or stress run with more reader "
+            "operations than queries.",
+    "assumptions": COMMON_ASSUME + ["the oracle is differential (sequential vs concurrent run of the real code); whether the sequential answers are right is C01/C02/C09/C10's business",
+                                    "interleavings inside a single map operation are only visible to the race detector; schedules are sampled at hook-site and Go-scheduler granularity",
+                                    "a 60 s stall without goroutines parked on the RWMutex is reported as inconclusive (exit 2), not as a violation"],
+    "may_stop_early": False,
+}
+MANIFEST_TEXT["C12"] = {
+    "level_text": "Exploration of schedules: harness-owned pause points inside every writer critical section (build-tag hooks) plus free-running stress, all under the race detector, "
+                  "with a differential whole-block-state oracle. Not an exhaustive enumeration of interleavings.",
+    "design_ref": "DESIGN.md section 6 C12",
+    "level_note": TRUST + " Go race detector (-race) as the data-race oracle.",
+    "technique": "property-based generation of writer scripts, query sets and schedules (rapid) with hook-owned pause points + race detector; differential oracle against a sequential replica",
+}
+NOT_APPLICABLE[:] = [e for e in NOT_APPLICABLE if e["property_id"] not in CHECKS]
